@@ -221,13 +221,14 @@ def case_strategy(draw):
         argv = list(prog.argv) + draw(st.sampled_from([[], ["-fstrict-done-token-generation"], ["-fallocate-str-space-dynamic"]]))
         datas = [bytes(draw(st.lists(st.sampled_from(list(b"abxcdqef")), min_size=2, max_size=6))) for _ in range(3)]
         return prog, argv, datas, []
-    if draw(st.integers(0, 7)) == 0:
-        prog, datas = draw(gen.break_loop_program())
+    fam = draw(st.integers(0, 9))
+    if fam in (0, 1):
+        prog, datas = draw(gen.break_loop_program() if fam == 0 else gen.last_foreach_program())
         argv = list(prog.argv) + draw(options.codegen_options(indirect=None))
         return prog, argv, datas[:6], []
     mode = draw(st.sampled_from(["plain", "plain", "yield", "yield", "eof"]))
     cfg = gen.GenConfig(max_depth=2, max_stmts=5, allow_yield=(mode == "yield"), allow_end=(mode == "eof"),
-                        kinds={"yield": 3 if mode == "yield" else 0, "append": 4, "hook": 4, "match": 8, "if": 3}, wide_bytes=0.05)
+                        kinds={"yield": 3 if mode == "yield" else 0, "append": 4, "hook": 4, "match": 8, "if": 3, "foreach": 2}, wide_bytes=0.05, allow_last=True)
     prog = draw(gen.program(cfg))
     argv = list(prog.argv) + draw(options.codegen_options(indirect=True if mode == "yield" else None))
     choices = draw(st.lists(st.lists(st.integers(0, 4095), min_size=3, max_size=16), min_size=1, max_size=3))
